@@ -146,6 +146,7 @@ impl SchedProp {
         b.ctx.reset_states();
         b.ctx.reset_counters();
         let mut first_trace = vec![];
+        let mut last_log: Vec<Event> = vec![];
         let repeats = case.repeats.max(1);
         let mut ord_calls = 0u32;
         let mut tl_calls = 0u32;
@@ -193,11 +194,31 @@ impl SchedProp {
             for (_, evs) in by_call(&out.log) {
                 self.oracles_on_call(b, &evs, case.entry, out.caller_thread)?;
             }
+            last_log = out.log.clone();
             check_all_free(&world)?;
         }
         if self.wants.contains(&Want::Counts) {
             let exp = expected_runs(&b.flat, ord_calls, tl_calls);
-            check_counts(&b.flat, &b.ctx.runs(), &exp)?;
+            if let Err(f) = check_counts(&b.flat, &b.ctx.runs(), &exp) {
+                // diagnostics for the report: what the counters and the last call's history say
+                let inner: Vec<u32> = b.ctx.inner_dispatches.iter().map(|c| c.load(SeqCst)).collect();
+                let hist: Vec<String> = last_log
+                    .iter()
+                    .map(|e| format!("{}:{:?}@{}/w{}", e.sys, e.kind, e.thread, e.worker))
+                    .collect();
+                return Err(Fail {
+                    msg: format!(
+                        "{} [runs {:?}, expected {:?}, inner dispatches {:?}, phase {}, last call history: {}]",
+                        f.msg,
+                        b.ctx.runs(),
+                        exp,
+                        inner,
+                        b.ctx.phase(),
+                        hist.join(" ")
+                    ),
+                    key: f.key,
+                });
+            }
         }
         if self.wants.contains(&Want::Differential) {
             let par_world = res::world_digest(&world);
